@@ -640,3 +640,27 @@ func SweepWorker(c *Ctx, arg string) int {
 
 // CtxEvals returns the evaluations counted through Eval so far.
 func (c *Ctx) CtxEvals() int64 { return c.evals.Load() }
+
+// Guard runs one case; a panic that escapes it (the library panicked on a valid call that the
+// harness makes while building or inspecting the case) becomes a failure instead of ending
+// the check.
+func Guard(key string, f func() []Failure) (fs []Failure) {
+	defer func() {
+		if r := recover(); r != nil {
+			if msg, ok := r.(string); ok && (strings.HasPrefix(msg, "world:") || strings.HasPrefix(msg, "c02:") || strings.HasPrefix(msg, "c10:") || strings.HasPrefix(msg, "bad replay case") || strings.HasPrefix(msg, "unknown")) {
+				panic(r) // an error of the harness itself, not of the library
+			}
+			buf := make([]byte, 2048)
+			buf = buf[:runtime.Stack(buf, false)]
+			where := ""
+			for _, l := range strings.Split(string(buf), "\n") {
+				if strings.Contains(l, "pipelined.dev/signal.") && !strings.Contains(l, "verif") {
+					where = strings.TrimSpace(l)
+					break
+				}
+			}
+			fs = append(fs, Failure{Key: key + "/unexpected-panic", Msg: fmt.Sprintf("the library panicked on a valid call made while building or inspecting the case: %v (in %s)", r, where)})
+		}
+	}()
+	return f()
+}
